@@ -346,6 +346,10 @@ matrixSslCreateIdentity(sslKeys_t *keys, psPubKey_t idkey, psX509Cert_t *cert)
     identity = matrixSslMakeIdentity(keys->pool, idkey, cert);
     if (identity == NULL)
     {
+        /* Ownership of the key and the certificate chain was passed to
+           this function: release them like the failure path below. */
+        psX509FreeCert(cert);
+        psClearPubKey(&idkey);
         return NULL;
     }
 
